@@ -335,7 +335,7 @@ func main() {
 		"timestamp > uint32, single entry) | boundary (empty lists, empty segment -> panic). " +
 		"non-trivial = Combine returned >= 2 paths, or a path with a shortcut or a peering link"
 
-	n := run.Count(330, 20000)
+	n := run.Count(300, 6000)
 	root := vgen.NewRand(run.Seed)
 	var topo *topogen.Topology
 	var segs *topogen.Segments
